@@ -13,6 +13,9 @@
 #include <sched.h>
 #include <sys/time.h>
 #include <sys/syscall.h>
+#include <sys/prctl.h>
+#include <signal.h>
+#include <ucontext.h>
 #include <linux/futex.h>
 #include <limits.h>
 #include <sys/mman.h>
@@ -53,6 +56,7 @@ int forced_spins = 0;
 int poll_rounds = 0;      // consecutive default switches away from threads found polling (see Th::periodic)
 bool time_dev = false;
 bool tso_mode = false;
+bool switch_points = true;      // photon_verif_switch() is a scheduling point (default; off for targets built with -DPHOTON_VERIF only for the TSC hook)
 uint64_t deadlines[32]; int ndeadlines = 0;
 struct Mtx { void* addr; int owner; int depth; } MT[MAXMTX]; int NM = 0;
 struct Poison { uintptr_t lo, hi; } PZ[MAXPOISON]; volatile int NP = 0;
@@ -279,7 +283,7 @@ extern "C" {
 void (*mv_on_deadlock)(const char*) = default_deadlock;
 
 void mv_init(void) {
-    NT = 0; NM = 0; NP = 0; vnow = MV_T0; npoints = 0; forced_spins = 0; poll_rounds = 0; time_dev = false; ndeadlines = 0; tso_mode = false;
+    NT = 0; NM = 0; NP = 0; vnow = MV_T0; npoints = 0; forced_spins = 0; poll_rounds = 0; time_dev = false; ndeadlines = 0; tso_mode = false; switch_points = true;
     mv_on_deadlock = default_deadlock;
     if (&photon::now) photon::now = vnow;
     self = reg_thread("main");
@@ -294,7 +298,7 @@ void mv_fini(void) {
 // loads `to`'s. It is a scheduling point inside otherwise unhooked code, and it lets the runtime see a thread being resumed
 // on one vCPU while another vCPU has not yet saved that thread's context (work stealing took it out of a run queue too early).
 void photon_verif_switch(void* from, void* to) {
-    if (!ON()) return;
+    if (!ON() || !switch_points) return;
     Th* me = self;
     for (int i = 0; i < NT; i++) if (i != me->id && TH[i].switching_from == to && to)
         pmc_violation("resumed-before-context-saved", "T%d (%s) switches to photon thread %p while T%d (%s) is still between releasing its run-queue lock and saving that thread's context",
@@ -307,7 +311,12 @@ void mv_yield(const char* label) { if (!ON()) return; Th* me = self; me->wait = 
 uint64_t mv_now(void) { return vnow; }
 void mv_register_deadline(uint64_t abs_us) { if (ndeadlines < 32) deadlines[ndeadlines++] = abs_us; }
 void mv_time_deviations(int on) { time_dev = on; }
+// In TSO mode every plain write is observable (it commits the buffered store at a scheduling point). The one real-time dependent plain
+// write in thread.cpp -- if_update_now() stores the TSC into a static whenever it changed -- is compiled out by the guarded hook
+// (-DPHOTON_VERIF, DESIGN.md section 4): targets that use mv_tso(1) with photon vCPUs must build thread.cpp with it.
+// (PR_SET_TSC was tried to trap and emulate RDTSC instead: the prctl succeeds in this VM but RDTSC does not trap.)
 void mv_tso(int on) { tso_mode = on; }
+void mv_switch_points(int on) { switch_points = on; }
 int mv_self(void) { return self ? self->id : -1; }
 int mv_nthreads(void) { return NT; }
 void mv_set_name(const char* name) { if (self) snprintf(self->name, sizeof self->name, "%s", name); }
@@ -428,9 +437,11 @@ void __tsan_init(void) {}
 DEF_VOL(1) DEF_VOL(2) DEF_VOL(4) DEF_VOL(8) DEF_VOL(16)
 
 // ------------------------------------------------------------------ TSan ABI: plain accesses feed the poison map only
-static void sb_commit_point(Th* me) { me->wait = W_NONE; schedule(me, "store-buffer commit", me->sb.addr); sb_drain(me); }
-#define SB_W() do { if (tso_mode && active && self && self->sb.on) sb_commit_point(self); } while (0)
-#define SB_R(a, n) do { if (tso_mode && active && self && self->sb.on && self->sb.addr <= (uintptr_t)(a) + (n) - 1 && (uintptr_t)(a) <= self->sb.addr + self->sb.size - 1) sb_commit_point(self); } while (0)
+static void sb_commit_point(Th* me, uintptr_t pc = 0) {
+    if (pmc_verbose() && pc) { Dl_info di; const char* nm = (dladdr((void*)pc, &di) && di.dli_sname) ? di.dli_sname : "?"; pmc_log("  (plain access at pc %lx in %s commits the buffered store)", (unsigned long)pc, nm); }
+    me->wait = W_NONE; schedule(me, "store-buffer commit", me->sb.addr); sb_drain(me); }
+#define SB_W() do { if (tso_mode && active && self && self->sb.on) sb_commit_point(self, PC()); } while (0)
+#define SB_R(a, n) do { if (tso_mode && active && self && self->sb.on && self->sb.addr <= (uintptr_t)(a) + (n) - 1 && (uintptr_t)(a) <= self->sb.addr + self->sb.size - 1) sb_commit_point(self, PC()); } while (0)
 #define DEF_PLAIN(N)                                                                                                   \
     void __tsan_read##N(void* a) { SB_R(a, N); if (NP && active) check_poison((uintptr_t)a, N, PC(), "read"); }        \
     void __tsan_write##N(void* a) { SB_W(); if (NP && active) check_poison((uintptr_t)a, N, PC(), "write"); }          \
